@@ -575,8 +575,9 @@ def ops_sum(a, b):
 
 
 def sorted_values(I, st, items, key=None, reverse=False):
-    """Sort a concrete-length list.  Concrete keys only (symbolic keys: Unsupported)."""
+    """Sort a concrete-length list.  Concrete keys, objects with __lt__, symbolic numbers / tuples (forking)."""
     M = _m()
+    items = list(items)  # snapshot: list.sort() writes the result of one path into the very list object passed in
     if key is not None:
         keys = []
         cur = st
@@ -612,14 +613,37 @@ def sorted_values(I, st, items, key=None, reverse=False):
     if all(obj_lt(I, cur, k) for k in keys):
         yield from sort_objects(I, cur, items, keys, reverse)
         return
+    if all(is_number(k) for k in keys) or all(isinstance(k, tuple) for k in keys):
+        # symbolic numbers / tuples (compared lexicographically, element by element): same scheme, `<` by key_lt
+        yield from sort_objects(I, cur, items, keys, reverse, lt_fn=key_lt)
+        return
     raise Unsupported("sorting symbolic keys")
+
+
+def key_lt(I, st, x, y):
+    """x < y for sort keys: numbers (possibly symbolic), strings, tuples of those (lexicographic; a later element is
+    only compared when all earlier ones are equal, as CPython does); objects with __lt__.  yields (state, bool | z3 | Exc)"""
+    M = _m()
+    if isinstance(x, tuple) and isinstance(y, tuple):
+        def rec(s, i):
+            if i == len(x) or i == len(y):
+                yield s, len(x) < len(y)
+                return
+            for s1, same in I.branch(s, M.eq_values(I, s, x[i], y[i])):
+                if same:
+                    yield from rec(s1, i + 1)
+                else:
+                    yield from key_lt(I, s1, x[i], y[i])
+        yield from rec(st, 0)
+        return
+    yield from M.compare(I, st, "Lt", x, y)
 
 
 def obj_lt(I, st, k):
     return isinstance(k, Ref) and st.get(k).kind == "obj" and I.class_lookup(st.get(k).cls, "__lt__")[0] is not None
 
 
-def sort_objects(I, st, items, keys, reverse):
+def sort_objects(I, st, items, keys, reverse, lt_fn=None):
     """sorted() of objects whose class defines __lt__ (keys[i] is the object compared for items[i]).  Every ordered
     pair is compared with the class's __lt__ (forking on symbolic outcomes); if the outcomes form a strict weak
     order the result is THE stable sorted permutation (A3), which is what CPython's sort returns for any consistent
@@ -636,8 +660,12 @@ def sort_objects(I, st, items, keys, reverse):
             yield s, lt
             return
         i, j = pairs[p]
-        m, _ = I.class_lookup(s.get(keys[i]).cls, "__lt__")
-        for s1, r in list(I.call(m, [keys[i], keys[j]], {}, s)):
+        if lt_fn is not None:
+            outs = list(lt_fn(I, s, keys[i], keys[j]))
+        else:
+            m, _ = I.class_lookup(s.get(keys[i]).cls, "__lt__")
+            outs = list(I.call(m, [keys[i], keys[j]], {}, s))
+        for s1, r in outs:
             if isinstance(r, Exc):
                 yield s1, r
                 continue
